@@ -231,21 +231,27 @@ def transform_meshes(
         w = quad[2] - quad[0]
         h = quad[3] - quad[1]
 
-        if w < 50 or h < 50:
+        if w < 50 and h < 50:
             return True
 
-        xc = quad[0] + w / 2.0 - 0.5
-        yc = quad[1] + h / 2.0 - 0.5
+        # check the center and the middle of each edge: the error of the
+        # bilinear quad interpolation is saddle-shaped for conformal
+        # projections and can vanish at the center while the edges are off
+        for fx, fy in ((0.5, 0.5), (0.5, 0.0), (0.0, 0.5), (1.0, 0.5), (0.5, 1.0)):
+            xc = quad[0] + w * fx - 0.5
+            yc = quad[1] + h * fy - 0.5
 
-        # coordinate for the center of the quad
-        dst_w = to_dst_w((xc, yc))
+            # coordinate for the point in the quad
+            dst_w = to_dst_w((xc, yc))
 
-        # actual coordinate for the center of the quad
-        src_px = center_quad_transform(quad, src_quad)
-        real_dst_w = src_srs.transform_to(dst_srs, to_src_w(src_px))
+            # actual coordinate for the point in the quad
+            src_px = center_quad_transform(quad, src_quad, fx, fy)
+            real_dst_w = src_srs.transform_to(dst_srs, to_src_w(src_px))
 
-        err = max(abs(dst_w[0] - real_dst_w[0]), abs(dst_w[1] - real_dst_w[1]))
-        return err < max_err
+            err = max(abs(dst_w[0] - real_dst_w[0]), abs(dst_w[1] - real_dst_w[1]))
+            if not err < max_err:
+                return False
+        return True
 
     # recursively add meshes. divide each quad into four sub quad till
     # accuracy is good enough.
@@ -261,7 +267,7 @@ def transform_meshes(
     return meshes
 
 
-def center_quad_transform(quad, src_quad):
+def center_quad_transform(quad, src_quad, fx=0.5, fy=0.5):
     """
     center_quad_transfrom transforms the center pixel coordinates
     from ``quad`` to ``src_quad`` by using affine transformation
@@ -287,8 +293,8 @@ def center_quad_transform(quad, src_quad):
     a6 = (sw[1] - y0) * At
     a7 = (se[1] - sw[1] - ne[1] + y0) * As * At
 
-    x = w / 2.0 - 0.5
-    y = h / 2.0 - 0.5
+    x = w * fx - 0.5
+    y = h * fy - 0.5
 
     return (
         a0 + a1*x + a2*y + a3*x*y,
